@@ -54,11 +54,23 @@ def _interpose():
             if layer:
                 _emit('Spawn', l=layer, child=self.pid, s='ok')
 
+        def _verif_note(self):
+            # the child has been reaped (returncode known) -- whichever of
+            # wait / poll / communicate noticed it first
+            if self._verif_layer and self.returncode is not None and \
+                    not getattr(self, '_verif_reaped', False):
+                self._verif_reaped = True
+                _emit('Reaped', l=self._verif_layer, child=self.pid,
+                      rc=self.returncode)
+
         def wait(self, *a, **kw):
-            had = self.returncode
             rc = real.wait(self, *a, **kw)
-            if had is None and self._verif_layer and rc is not None:
-                _emit('Reaped', l=self._verif_layer, child=self.pid, rc=rc)
+            self._verif_note()
+            return rc
+
+        def poll(self):
+            rc = real.poll(self)
+            self._verif_note()
             return rc
 
     subprocess.Popen = Popen
